@@ -2385,10 +2385,27 @@ def _b_sum(it, a, k):
 
 def _b_minmax(which):
     def f(it, a, k):
-        items = it.iterate(a[0]) if len(a) == 1 else a
-        if any(isinstance(x, Abs) for x in items):
-            it.unsupported("%s of abstract values" % which)
-        return (min if which == "min" else max)(items)
+        items = list(it.iterate(a[0])) if len(a) == 1 else list(a)
+        key = k.get("key")
+        if not items:
+            if "default" in k:
+                return k["default"]
+            raise AbsRaise("ValueError", ("%s() arg is an empty sequence" % which,))
+        keys = [it.call(key, [x]) for x in items] if key is not None else items
+        if any(isinstance(x, Abs) for x in keys):
+            # compared pairwise through the interpreter's own < (symbolic values fork), first extreme element wins
+            best = 0
+            for i in range(1, len(items)):
+                less = it.truth(it.compare(ast.Lt(), keys[i], keys[best]) if which == "min" else it.compare(ast.Gt(), keys[i], keys[best]), "min/max")
+                if less:
+                    best = i
+            return items[best]
+        pick = (min if which == "min" else max)(range(len(items)), key=lambda i: keys[i])
+        # Python returns the first extreme element
+        for i in range(len(items)):
+            if keys[i] == keys[pick]:
+                return items[i]
+        return items[pick]
     return f
 
 
